@@ -71,10 +71,32 @@ def tailOf (took : List Nat) : TailP :=
 def CancelPending (s : State) (n : Nat) : Prop :=
   ∃ c, (s.box n).own = some c ∧ (s.pc c = .cLock n ∨ s.pc c = .cRemove n (s.node n).fut)
 
+/-- what holds of a node that is linked on futex `f` or waits to be scanned by a `wake_all` on `f` -/
+def MemOk (s : State) (f n : Nat) : Prop :=
+  (s.box n).alloc = true ∧ (s.box n).pub = true ∧ (s.node n).fut = f ∧ ((s.box n).taken = true → CancelPending s n)
+
 /-- nodes a scanning `wake_all` has detached and not looked at yet -/
 def Pc.pend : Pc → List Nat
   | .aScan _ _ _ _ _ pend _ _ => pend
   | _ => []
+
+/-- the pointer structure of every futex list -/
+def ListOk (s : State) : Prop :=
+  ∀ f, Chain s.node (.head f) (s.hnext f) (s.glist f) ∧ (s.glist f).Nodup ∧ ∀ n ∈ s.glist f, MemOk s f n
+
+/-- `wake_all`, first phase -/
+def ScanOk (s : State) : Prop :=
+  ∀ a f hd tail cur took pend skip l0, s.pc a = .aScan f hd tail cur took pend skip l0 →
+    s.glist f = [] ∧ NChain s.node hd (took ++ pend) ∧ pend.head? = some cur ∧ (took ++ pend).Nodup ∧
+    tail = tailOf took ∧ (∀ n ∈ pend, MemOk s f n) ∧
+    (∀ n ∈ took, (s.node n).fut = f ∧ (s.node n).prev = .null)
+
+/-- what a non-null `prev` of a published node means -/
+def PrevOk (s : State) : Prop :=
+  ∀ n, (s.box n).alloc = true → (s.box n).pub = true → (s.node n).prev ≠ .null →
+    n ∈ s.glist (s.node n).fut ∨
+    (∃ b, s.lock (s.node n).fut = some b ∧ n ∈ (s.pc b).pend) ∨
+    (∃ c, (s.box n).own = some c ∧ (s.pc c = .cResume n ∨ s.pc c = .cFree n))
 
 structure Inv (s : State) : Prop where
   kindC : ∀ t, (s.pc (.cl t)).isWait = false
@@ -103,19 +125,9 @@ structure Inv (s : State) : Prop where
     s.fr (s.node n).h = .suspended ∧ s.pc (.fr (s.node n).h) = .idle ∧ s.wslot (s.node n).h = some n
   parked : ∀ h, s.fr h = .suspended → s.pc (.fr h) = .idle →
     ∃ n, s.wslot h = some n ∧ (s.box n).alloc = true ∧ (s.box n).pub = true ∧ (s.node n).h = h ∧ (s.box n).rsm = false
-  listOk : ∀ f, Chain s.node (.head f) (s.hnext f) (s.glist f) ∧ (s.glist f).Nodup ∧
-    ∀ n ∈ s.glist f, (s.box n).alloc = true ∧ (s.box n).pub = true ∧ (s.node n).fut = f ∧
-      ((s.box n).taken = true → CancelPending s n)
-  scanOk : ∀ a f hd tail cur took pend skip l0, s.pc a = .aScan f hd tail cur took pend skip l0 →
-    s.glist f = [] ∧ NChain s.node hd (took ++ pend) ∧ pend.head? = some cur ∧ (took ++ pend).Nodup ∧
-    tail = tailOf took ∧
-    (∀ n ∈ pend, (s.box n).alloc = true ∧ (s.box n).pub = true ∧ (s.node n).fut = f ∧
-      ((s.box n).taken = true → CancelPending s n)) ∧
-    (∀ n ∈ took, (s.node n).fut = f ∧ (s.node n).prev = .null)
-  prevOk : ∀ n, (s.box n).alloc = true → (s.box n).pub = true → (s.node n).prev ≠ .null →
-    n ∈ s.glist (s.node n).fut ∨
-    (∃ b, s.lock (s.node n).fut = some b ∧ n ∈ (s.pc b).pend) ∨
-    (∃ c, (s.box n).own = some c ∧ (s.pc c = .cResume n ∨ s.pc c = .cFree n))
+  listOk : ListOk s
+  scanOk : ScanOk s
+  prevOk : PrevOk s
   oScanOk : ∀ a f cur l0 seen, s.pc a = .oScan f cur l0 seen → s.hnext f = some cur ∧ l0 = seen ++ s.glist f
   oNoneOk : ∀ a f l0 seen, s.pc a = .oUnlock f none l0 seen → s.hnext f = none ∧ s.glist f = [] ∧ seen = l0
   aUnlockOk : ∀ a f hd took skip l0, s.pc a = .aUnlock f hd took skip l0 →
